@@ -364,13 +364,15 @@ theorem C06_refines_linkRun {now : Nat} {classic : Bool} {A : SysDir.Op → Prop
 
 /-- **Refinement, event level** (every constructor of `Sys.Ev`, every link index): the list length is
 invariant and the window view of link `j` after the event is reached from its view before the event by a
-history of the abstract machine whose ops are all allowed by the event for that link. -/
-theorem C06_shell_refines (s : Sys.Sys F) (e : Sys.Ev) :
+history of the abstract machine whose ops are all allowed by the event for that link.
+`hnr`: over events / runs that keep the link set (no `Ev.reload`); a reload keeps the whole record of every retained link
+(`Props/SysReload.lean: reload_frame`) and the theorem applies again from the state after it. -/
+theorem C06_shell_refines (s : Sys.Sys F) (e : Sys.Ev) (hnr : e.isReload = false) :
     (Sys.step s e).1.links.length = s.links.length ∧
     ∀ (j : Nat) (l : FLink F), s.links[j]? = some l →
       ∃ l', (Sys.step s e).1.links[j]? = some l' ∧
         Reach (shellOk s.cfg.classic (SysDir.evOps s e j)) (proj l.core) (proj l'.core) := by
-  obtain ⟨h1, h2⟩ := SysDir.step_run s e
+  obtain ⟨h1, h2⟩ := SysDir.step_run s e hnr
   refine ⟨h1, fun j l hl => ?_⟩
   obtain ⟨l', hl', hr⟩ := h2 j l hl
   exact ⟨l', hl', C06_refines_linkRun hr⟩
@@ -602,10 +604,10 @@ variable {F : Type} [Scalar F]
 (`C06_range_sys`). -/
 def RangeInv (s : Sys.Sys F) : Prop := ∀ l ∈ s.links, InRange l.core.window
 
-theorem refines_at (s : Sys.Sys F) (e : Sys.Ev) (j : Nat) (l l' : FLink F) (hl : s.links[j]? = some l)
-    (hl' : (Sys.step s e).1.links[j]? = some l') :
+theorem refines_at (s : Sys.Sys F) (e : Sys.Ev) (hnr : e.isReload = false) (j : Nat) (l l' : FLink F)
+    (hl : s.links[j]? = some l) (hl' : (Sys.step s e).1.links[j]? = some l') :
     Reach (shellOk s.cfg.classic (SysDir.evOps s e j)) (proj l.core) (proj l'.core) := by
-  obtain ⟨l'', h1, h2⟩ := (C06_shell_refines s e).2 j l hl
+  obtain ⟨l'', h1, h2⟩ := (C06_shell_refines s e hnr).2 j l hl
   rw [hl'] at h1
   cases h1
   exact h2
@@ -617,7 +619,7 @@ theorem C06_direction_client (s : Sys.Sys F) (now : Nat) (pkt : Sys.Bytes) (j : 
     l'.core.cong = l.core.cong ∧
     ((l'.core.window = l.core.window ∧ l'.core.connected = l.core.connected) ∨
      (l'.core.window = 20000 ∧ l'.core.connected = false)) := by
-  have h := refines_at s _ j l l' hl hl'
+  have h := refines_at s _ rfl j l l' hl hl'
   have hn : ∀ op, op = SysDir.Op.reconnect ∨ op = .reg3 ∨ op = .recover ∨ op = .nak ∨ op = .sack ∨ op = .gack →
       ¬ SysDir.evOps s (.client now pkt) j op := by
     intro op hop hA
@@ -637,7 +639,7 @@ theorem C06_direction_client (s : Sys.Sys F) (now : Nat) (pkt : Sys.Bytes) (j : 
 theorem C06_direction_flush (s : Sys.Sys F) (now : Nat) (j : Nat) (l l' : FLink F)
     (hl : s.links[j]? = some l) (hl' : (Sys.step s (.flush now)).1.links[j]? = some l') :
     l'.core.window = l.core.window ∧ l'.core.cong = l.core.cong ∧ l'.core.connected = l.core.connected := by
-  have h := refines_at s _ j l l' hl hl'
+  have h := refines_at s _ rfl j l l' hl hl'
   have hn : ∀ op, op ≠ SysDir.Op.take → ¬ SysDir.evOps s (.flush now) j op := fun op hop hA => hop hA
   exact reach_neutral (hn _ (by decide)) (hn _ (by decide)) (hn _ (by decide)) (hn _ (by decide))
     (hn _ (by decide)) (hn _ (by decide)) (hn _ (by decide)) h
@@ -701,11 +703,11 @@ theorem C06_direction_uplink (s : Sys.Sys F) (now cid : Nat) (data : Sys.Bytes) 
          (l'.core.cong = {} ∧ l'.core.connected = true ∧ s.links.findIdx? (·.core.connId == cid) = some j))) ∧
       (pt ≠ 0x8003 → pt ≠ 0x9100 → pt ≠ 0x9210 → pt ≠ 0x9202 →
         l'.core.window = l.core.window ∧ l'.core.cong = l.core.cong ∧ l'.core.connected = l.core.connected) := by
-  have hrun := (SysDir.step_run s (.uplink now cid data)).2 j l hl
+  have hrun := (SysDir.step_run s (.uplink now cid data) rfl).2 j l hl
   obtain ⟨l'', h1, hrun⟩ := hrun
   rw [hl'] at h1
   cases h1
-  have h := refines_at s _ j l l' hl hl'
+  have h := refines_at s _ rfl j l l' hl hl'
   have hin : InRange l.core.window := hr l (List.mem_of_getElem? hl)
   constructor
   · intro hnone
@@ -786,7 +788,7 @@ theorem C06_direction_hk (s : Sys.Sys F) (now : Nat) (hr : RangeInv s) (j : Nat)
     refine .inr (.inl ⟨f9.window, ?_, f9.connected, hmem⟩)
     show (l.recordAttempt now).core.cong = l.core.cong
     rw [hra]
-  have h := refines_at s _ j l l' hl hl'
+  have h := refines_at s _ rfl j l l' hl hl'
   have hin : InRange l.core.window := hr l (List.mem_of_getElem? hl)
   have hn : ∀ op, op = SysDir.Op.mark ∨ op = .reg3 ∨ op = .nak ∨ op = .sack ∨ op = .gack →
       ¬ SysDir.evOps s (.hk now) j op := by
@@ -837,7 +839,9 @@ a client datagram, a flush, the configuration / injection events and the verdict
 failed send (20000); an uplink datagram that is not an SRTLA ACK (0x9100) and not REG_ERR (0x9210) never
 increases a window, one that is not an SRT NAK (0x8003) and not REG_ERR never decreases one, REG_ERR leaves
 every window or resets it to 20000; housekeeping never decreases a window except by tear-down to 20000, and in
-classic mode leaves every window that is not torn down unchanged. -/
+classic mode leaves every window that is not torn down unchanged; a reload (`Ev.reload`, the only event that
+moves indices) leaves at every index a link of the pre-state with its WHOLE record, or a fresh `new_registering`
+record (window 20000). -/
 theorem C06_direction_sys (s : Sys.Sys F) (e : Sys.Ev) (hr : RangeInv s) (j : Nat) (l l' : FLink F)
     (hl : s.links[j]? = some l) (hl' : (Sys.step s e).1.links[j]? = some l') :
     match (generalizing := false) e with
@@ -849,6 +853,7 @@ theorem C06_direction_sys (s : Sys.Sys F) (e : Sys.Ev) (hr : RangeInv s) (j : Na
     | .failBind _ => l' = l
     | .stamp _ _ _ _ _ => l'.core = l.core
     | .syncTimeout => l'.core = l.core
+    | .reload now _ _ => l' ∈ s.links ∨ ∃ id a, l' = FLink.newUplink id a now
     | .uplink _ _ data =>
         (Codec.getPacketTypeS data = none → l' = l) ∧
         ∀ pt, Codec.getPacketTypeS data = some pt →
@@ -871,6 +876,10 @@ theorem C06_direction_sys (s : Sys.Sys F) (e : Sys.Ev) (hr : RangeInv s) (j : Na
   | failBind cid => rw [show (Sys.step s (.failBind cid)).1.links = s.links from rfl, hl] at hl'; exact (Option.some.inj hl').symm
   | stamp idx weak ld ccb cct => exact stamp_core s idx weak ld ccb cct j l l' hl hl'
   | syncTimeout => exact sync_core s j l l' hl hl'
+  | reload rnow raddrs routs =>
+    rcases Sys.mem_reload (List.mem_of_getElem? hl') with ⟨h1, -⟩ | ⟨id, a, -, -, h⟩
+    · exact .inl h1
+    · exact .inr ⟨id, a, h⟩
   | uplink now cid data =>
     obtain ⟨h0, h⟩ := C06_direction_uplink s now cid data hr j l l' hl hl'
     refine ⟨h0, fun pt hpt => ?_⟩
@@ -940,8 +949,10 @@ the chosen link (`clientTarget`) or a connected link of a registered session tha
 (guard on, data packet); the uplink arm: the datagram is a REG_ERR (type 0x9210) on this link's conn id; the
 housekeeping arms: the link is timed out, a reconnect attempt is due, and it is not the never-established link
 whose start-up grace window this very tick re-arms (`Hk.hkGraceIdx`).  This theorem reads "IF the link looks torn
-down THEN a cause"; the converse "IF a cause THEN reset" is `C06_teardown_resets_window_sys`. -/
-theorem C06_reset_sys (s : Sys.Sys F) (e : Sys.Ev) (j : Nat) (l l' : FLink F)
+down THEN a cause"; the converse "IF a cause THEN reset" is `C06_teardown_resets_window_sys`.
+`hnr`: over events / runs that keep the link set (no `Ev.reload`); a reload keeps the whole record of every retained link
+(`Props/SysReload.lean: reload_frame`) and the theorem applies again from the state after it. -/
+theorem C06_reset_sys (s : Sys.Sys F) (e : Sys.Ev) (hnr : e.isReload = false) (j : Nat) (l l' : FLink F)
     (hl : s.links[j]? = some l) (hl' : (Sys.step s e).1.links[j]? = some l') :
     (l'.core.connected = l.core.connected ∧ (l'.core.phase = .registering ↔ l.core.phase = .registering)) ∨
     (l'.core.window = 20000 ∧ l'.core.connected = false ∧ l'.core.phase = .registering ∧ l'.core.log = [] ∧
@@ -984,7 +995,7 @@ theorem C06_reset_sys (s : Sys.Sys F) (e : Sys.Ev) (j : Nat) (l l' : FLink F)
           .inl ⟨hcong, .inl ⟨now, pkt, rfl, List.count_pos_iff.1 (by omega), hlt,
             .inr ⟨ht, hon, hreg, hc, hseq⟩⟩⟩⟩)
   | uplink now cid data =>
-    obtain ⟨l'', h1, hs⟩ := (Hk.step_link s (.uplink now cid data)).1 j l hl
+    obtain ⟨l'', h1, hs⟩ := (Hk.step_link s (.uplink now cid data) rfl).1 j l hl
     rw [hl'] at h1
     cases h1
     cases hs with
@@ -1037,7 +1048,7 @@ theorem C06_reset_sys (s : Sys.Sys F) (e : Sys.Ev) (j : Nat) (l l' : FLink F)
           by rw [ht']; exact f9.log, by rw [ht']; exact f9.inFlight, by rw [ht']; exact f9.queue,
           .inl ⟨cg, .inr (.inr ⟨now, rfl, hto, hsa, hgr, Hk.hkFails_mem s now j _ hf⟩)⟩⟩)
   | _ =>
-    obtain ⟨l'', h1, hs⟩ := (Hk.step_link s _).1 j l hl
+    obtain ⟨l'', h1, hs⟩ := (Hk.step_link s _ hnr).1 j l hl
     rw [hl'] at h1
     cases h1
     cases hs with
@@ -1094,8 +1105,12 @@ and every link `j` (`l` before, `l'` after):
    the event is a REG3 on this link (window kept) — and the window moves only as `C06_direction_sys` says with
    the reset alternative REMOVED: a client datagram leaves it alone, a REG_ERR (necessarily on another link)
    leaves it alone, a tick does not lower it and in classic mode leaves it alone (`[1000, 60000]` assumed of the
-   pre-state: `RangeInv`); the other uplink types are `C06_direction_uplink`. -/
-theorem C06_teardown_resets_window_sys (s : Sys.Sys F) (e : Sys.Ev) (hr : RangeInv s) (j : Nat) (l l' : FLink F)
+   pre-state: `RangeInv`); the other uplink types are `C06_direction_uplink`.
+
+`hnr`: over events / runs that keep the link set (no `Ev.reload`); a reload keeps the whole record of every retained link
+(`Props/SysReload.lean: reload_frame`) and the theorem applies again from the state after it. -/
+theorem C06_teardown_resets_window_sys (s : Sys.Sys F) (e : Sys.Ev) (hnr : e.isReload = false) (hr : RangeInv s)
+    (j : Nat) (l l' : FLink F)
     (hl : s.links[j]? = some l) (hl' : (Sys.step s e).1.links[j]? = some l') :
     (TearCause s e j l → ((∃ now pkt, e = .client now pkt) → (s.links.map (·.core.connId)).Nodup) →
       TornDown l') ∧
@@ -1148,7 +1163,7 @@ theorem C06_teardown_resets_window_sys (s : Sys.Sys F) (e : Sys.Ev) (hr : RangeI
     rintro now rfl
     obtain ⟨a, -, c⟩ := C06_direction_flush s now j l l' hl hl'
     refine ⟨a, c, ?_⟩
-    obtain ⟨l'', h1, hs⟩ := (Hk.step_link s (.flush now)).1 j l hl
+    obtain ⟨l'', h1, hs⟩ := (Hk.step_link s (.flush now) rfl).1 j l hl
     rw [hl'] at h1; cases h1
     cases hs with
     | evolves cto hcto h => exact h.phaseReg
@@ -1160,7 +1175,7 @@ theorem C06_teardown_resets_window_sys (s : Sys.Sys F) (e : Sys.Ev) (hr : RangeI
   · -- (4) converse frame
     intro hno
     refine ⟨?_, ?_, ?_, ?_⟩
-    · rcases C06_reset_sys s e j l l' hl hl' with h | h | h
+    · rcases C06_reset_sys s e hnr j l l' hl hl' with h | h | h
       · exact .inl h
       · exfalso
         obtain ⟨-, -, -, -, -, -, hc⟩ := h
@@ -1207,8 +1222,11 @@ carrying an SRT NAK (type 0x8003) that left this link's window at 2000 or less (
 it turns OFF only at a window of 12000 or more — in an uplink event carrying an SRTLA ACK (0x9100) in enhanced
 mode, or in a housekeeping tick (time-based recovery in enhanced mode, or the reconnect reset to 20000) — or by
 REG3 (0x9202) arriving on this link (`clear_pre_registration_state`).  `mark_for_recovery` (failed send,
-REG_ERR, housekeeping's fallback after a failed socket re-creation) does NOT clear it. -/
-theorem C06_fast_recovery_sys (s : Sys.Sys F) (e : Sys.Ev) (hr : RangeInv s) (j : Nat) (l l' : FLink F)
+REG_ERR, housekeeping's fallback after a failed socket re-creation) does NOT clear it.
+`hnr`: over events / runs that keep the link set (no `Ev.reload`); a reload keeps the whole record of every retained link
+(`Props/SysReload.lean: reload_frame`) and the theorem applies again from the state after it. -/
+theorem C06_fast_recovery_sys (s : Sys.Sys F) (e : Sys.Ev) (hnr : e.isReload = false) (hr : RangeInv s) (j : Nat)
+    (l l' : FLink F)
     (hl : s.links[j]? = some l) (hl' : (Sys.step s e).1.links[j]? = some l') :
     (l.core.cong.fastRecovery = false → l'.core.cong.fastRecovery = true →
       ∃ now cid data, e = .uplink now cid data ∧ Codec.getPacketTypeS data = some 0x8003 ∧
@@ -1251,6 +1269,7 @@ theorem C06_fast_recovery_sys (s : Sys.Sys F) (e : Sys.Ev) (hr : RangeInv s) (j 
   | syncTimeout =>
     have e' : l'.core.cong = l.core.cong := by rw [sync_core s j l l' hl hl']
     exact same e'
+  | reload rnow raddrs routs => cases hnr
   | uplink now cid data =>
     obtain ⟨h0, h⟩ := C06_direction_uplink s now cid data hr j l l' hl hl'
     cases hpt : Codec.getPacketTypeS data with
@@ -1310,8 +1329,11 @@ theorem run_snoc (s : Sys.Sys F) (pre : List Sys.Ev) (e : Sys.Ev) :
 /-- **(c) along any run**: for every run `pre ++ [e]` of the shell from an invariant state (in particular the
 initial state), the last event `e` changes the fast-recovery flag of link `j` only as `C06_fast_recovery_sys`
 says — ON only by a NAK datagram that left the window at 2000 or less, OFF only at 12000 or more (SRTLA ACK in
-enhanced mode, housekeeping) or by REG3 on that link. -/
-theorem C06_fast_recovery_run (s : Sys.Sys F) (pre : List Sys.Ev) (e : Sys.Ev)
+enhanced mode, housekeeping) or by REG3 on that link.
+`hnr` (the LAST event only; `pre` may contain reloads): over events / runs that keep the link set (no `Ev.reload`); a
+reload keeps the whole record of every retained link (`Props/SysReload.lean: reload_frame`) and the theorem applies
+again from the state after it. -/
+theorem C06_fast_recovery_run (s : Sys.Sys F) (pre : List Sys.Ev) (e : Sys.Ev) (hnr : e.isReload = false)
     (h : ∀ l ∈ s.links, LogInv l.core ∧ 1000 ≤ l.core.window ∧ l.core.window ≤ 60000 ∧ 0 ≤ l.core.inFlight ∧
       ∀ it ∈ l.queue, ∀ sq, it.2.1 = some sq → sq < 2147483648)
     (j : Nat) (l l' : FLink F) (hl : (Sys.run s pre).1.links[j]? = some l)
@@ -1327,7 +1349,7 @@ theorem C06_fast_recovery_run (s : Sys.Sys F) (pre : List Sys.Ev) (e : Sys.Ev)
       (∃ now cid data, e = .uplink now cid data ∧ Codec.getPacketTypeS data = some 0x9202 ∧
         (Sys.run s pre).1.links.findIdx? (·.core.connId == cid) = some j ∧ l'.core.cong = {})) := by
   rw [run_snoc] at hl'
-  exact C06_fast_recovery_sys _ e (rangeInv_run s pre h) j l l' hl hl'
+  exact C06_fast_recovery_sys _ e hnr (rangeInv_run s pre h) j l l' hl hl'
 
 /-- **(a) along any run**: `C06_direction_sys` for the last event of every run from an invariant state. -/
 theorem C06_direction_run (s : Sys.Sys F) (pre : List Sys.Ev) (e : Sys.Ev)
@@ -1344,6 +1366,7 @@ theorem C06_direction_run (s : Sys.Sys F) (pre : List Sys.Ev) (e : Sys.Ev)
     | .failBind _ => l' = l
     | .stamp _ _ _ _ _ => l'.core = l.core
     | .syncTimeout => l'.core = l.core
+    | .reload now _ _ => l' ∈ (Sys.run s pre).1.links ∨ ∃ id a, l' = FLink.newUplink id a now
     | .uplink _ _ data =>
         (Codec.getPacketTypeS data = none → l' = l) ∧
         ∀ pt, Codec.getPacketTypeS data = some pt →
@@ -1454,17 +1477,17 @@ example : exView (Sys.step (Sys.step exSysD (.failNext 1)).1 (.client 5000 exDat
   decide +kernel
 
 /-- Instances of the theorems on `exSysD`. -/
-example (e : Sys.Ev) (j : Nat) (l l' : FLink Int) (hl : exSysD.links[j]? = some l)
+example (e : Sys.Ev) (hnr : e.isReload = false) (j : Nat) (l l' : FLink Int) (hl : exSysD.links[j]? = some l)
     (hl' : (Sys.step exSysD e).1.links[j]? = some l') :=
-  C06_fast_recovery_sys exSysD e exSysD_range j l l' hl hl'
+  C06_fast_recovery_sys exSysD e hnr exSysD_range j l l' hl hl'
 
 example (e : Sys.Ev) (j : Nat) (l l' : FLink Int) (hl : exSysD.links[j]? = some l)
     (hl' : (Sys.step exSysD e).1.links[j]? = some l') :=
   C06_direction_sys exSysD e exSysD_range j l l' hl hl'
 
-example (pre : List Sys.Ev) (e : Sys.Ev) (j : Nat) (l l' : FLink Int)
+example (pre : List Sys.Ev) (e : Sys.Ev) (hnr : e.isReload = false) (j : Nat) (l l' : FLink Int)
     (hl : (Sys.run exSysD pre).1.links[j]? = some l) (hl' : (Sys.run exSysD (pre ++ [e])).1.links[j]? = some l') :=
-  C06_fast_recovery_run exSysD pre e exSysD_inv j l l' hl hl'
+  C06_fast_recovery_run exSysD pre e hnr exSysD_inv j l l' hl hl'
 
 /-- … and the premises of the two fast-recovery clauses are met on it (OFF → ON by the NAK, ON → OFF by the tick). -/
 example : ∃ l l', exSysD.links[0]? = some l ∧ (Sys.step exSysD (.uplink 5000 1 exNak5)).1.links[0]? = some l' ∧
@@ -1475,12 +1498,12 @@ example : ∃ l l', exSysD.links[1]? = some l ∧ (Sys.step exSysD (.hk 6000)).1
     l.core.cong.fastRecovery = true ∧ l'.core.cong.fastRecovery = false ∧ l'.core.window = 12005 :=
   ⟨_, _, rfl, rfl, by decide +kernel, by decide +kernel, by decide +kernel⟩
 
-example (e : Sys.Ev) (j : Nat) (l : FLink Int) (hl : exSysD.links[j]? = some l) :=
-  (C06_shell_refines exSysD e).2 j l hl
+example (e : Sys.Ev) (hnr : e.isReload = false) (j : Nat) (l : FLink Int) (hl : exSysD.links[j]? = some l) :=
+  (C06_shell_refines exSysD e hnr).2 j l hl
 
-example (e : Sys.Ev) (j : Nat) (l l' : FLink Int) (hl : exSysD.links[j]? = some l)
+example (e : Sys.Ev) (hnr : e.isReload = false) (j : Nat) (l l' : FLink Int) (hl : exSysD.links[j]? = some l)
     (hl' : (Sys.step exSysD e).1.links[j]? = some l') :=
-  C06_reset_sys exSysD e j l l' hl hl'
+  C06_reset_sys exSysD e hnr j l l' hl hl'
 
 example (pre : List Sys.Ev) (e : Sys.Ev) (j : Nat) (l l' : FLink Int)
     (hl : (Sys.run exSysD pre).1.links[j]? = some l) (hl' : (Sys.run exSysD (pre ++ [e])).1.links[j]? = some l') :=
@@ -1527,7 +1550,7 @@ example :
 example : TearCause exPre (.uplink 100 7 exRegErr) 0 exPre.links[0] :=
   .inl ⟨100, 7, exRegErr, rfl, by decide, by decide⟩
 
-example := (C06_teardown_resets_window_sys exPre (.uplink 100 7 exRegErr) exPre_range 0 _ _ rfl rfl).1
+example := (C06_teardown_resets_window_sys exPre (.uplink 100 7 exRegErr) rfl exPre_range 0 _ _ rfl rfl).1
   (.inl ⟨100, 7, exRegErr, rfl, by decide, by decide⟩) (fun ⟨_, _, h⟩ => by cases h)
 
 /-- Cause 3 (tick finds it timed out and due) on the same link: grace over at 5000, last attempt at 50 — at
@@ -1539,7 +1562,7 @@ example :
       = [(20000, 0, 0, 0)] := by
   decide +kernel
 
-example := (C06_teardown_resets_window_sys exPre (.hk 20000) exPre_range 0 _ _ rfl rfl).1
+example := (C06_teardown_resets_window_sys exPre (.hk 20000) rfl exPre_range 0 _ _ rfl rfl).1
   (.inr (.inr ⟨20000, rfl, by decide +kernel, by decide +kernel, fun h => by
     have : Hk.hkGraceIdx exPre 20000 = none := by decide +kernel
     rw [this] at h; cases h.1⟩)) (fun ⟨_, _, h⟩ => by cases h)
@@ -1560,7 +1583,7 @@ example :
       [(20000, 0, 0, 0, false), (11990, 0, 0, 0, true)] := by
   decide +kernel
 
-example := (C06_teardown_resets_window_sys (Sys.step exSysD (.failNext 1)).1 (.client 5000 exData12)
+example := (C06_teardown_resets_window_sys (Sys.step exSysD (.failNext 1)).1 (.client 5000 exData12) rfl
     (by intro l hl; exact exSysD_range l hl) 0 _ _ rfl rfl).2.1 5000 exData12 rfl
   (by decide +kernel) (by decide +kernel) (by decide +kernel)
 
